@@ -190,6 +190,9 @@ func TestC16(t *testing.T) {
 				cl = append(cl, "split+extend")
 			}
 			cl = append(cl, fmt.Sprintf("docs=%d", len(a.Docs)))
+			if a.Late {
+				cl = append(cl, "ill-formed-member-extended-in-last-load")
+			}
 		}
 		if c.IllFormed != "" {
 			cl = append(cl, "ill-formed-set", "ill-formed="+c.IllFormed)
@@ -234,13 +237,15 @@ func TestC16(t *testing.T) {
 		s := GenFull(rt, Opts{Descs: true, Directives: true, Deprecated: true})
 		o := hx.SDLOpts{Commas: rapid.Bool().Draw(rt, "commas")}
 		c := &c16Case{}
+		var mut *Mutation
 		if rapid.IntRange(0, 4).Draw(rt, "illFormed") == 0 {
 			kinds := []string{"ref-field-type", "ref-arg-type", "ref-union-member", "ref-interface", "dup-type", "dup-field", "reserved-field", "field-returns-input",
 				"arg-takes-output", "iface-missing-field", "iface-wrong-type", "iface-extra-required-arg", "union-member-not-object", "dir-wrong-location-type", "ref-directive-on-type"}
 			for _, k := range rapid.Permutation(kinds).Draw(rt, "illKinds") {
-				if ms, _, ok := Mutate(rt, s, k); ok {
+				if ms, m, ok := Mutate(rt, s, k); ok {
 					s = ms
 					c.IllFormed = k
+					mut = &m
 					break
 				}
 			}
@@ -251,6 +256,12 @@ func TestC16(t *testing.T) {
 			Arrange(rt, s, o, "s", false, 4), // split into successive loads
 			Arrange(rt, s, o, "x", true, 1),  // members in extend blocks
 			Arrange(rt, s, o, "sx", true, 4)) // both
+		if mut != nil {
+			// the offending member arrives alone, in an extend block loaded after everything else
+			for _, docs := range LateForms(s, mut, o) {
+				c.Arrangements = append(c.Arrangements, &Arrangement{Docs: [][]Piece{{{Text: docs[0]}}, {{Text: docs[1]}}}, Splits: 1, Moved: 1, Late: true})
+			}
+		}
 		one(rt.Fatalf, c)
 	})
 }
